@@ -143,6 +143,11 @@ def wl_tokens(ctx):
 
 
 def rand_unicode(rng):
+    if rng.random() < 0.02:
+        # numbers of absurd length where parsers convert digits (Python refuses int() beyond 4300 digits)
+        digits = rng.choice(["1", "9", "0", "7"]) * rng.choice([12, 400, 4301, 6000])
+        return rng.choice(["\x1b[%sm", "\x1b[1;%s;3mx", "\x1b[38;5;%smx", "\x1b[38;2;%s;0;0mx", "rgb(%s,1,1)", "color(%s)",
+                           "#%s", "[rgb(1,%s,1)]x[/]", "on rgb(%s,0,0)", "\x1b]8;id=%s;http://x\x1b\\y"]) % digits
     n = rng.randint(0, 30)
     out = []
     for _ in range(n):
@@ -368,7 +373,24 @@ def wl_other_renderables(ctx, rng, case_no):
                 "theme": rng.choice(["monokai", "ansi_dark", "default"])}
         make = lambda: Syntax(code, lexer, **opts)
     else:
-        value = rng.choice([[1, 2, {"a": (None, 3.5)}], {"k": "v" * 50}, "s", 12, [], {}, (1,), set(), range(3), object])
+        import collections
+        import enum
+        import os as _os
+        import sys as _sys
+        Point = collections.namedtuple("Point", "x y")
+
+        class Stack(list):
+            pass
+
+        class Colour(enum.IntEnum):
+            RED = 1
+        # plain values, and values whose TYPE is a subclass of a built-in container (named tuples, OrderedDict,
+        # struct sequences, user subclasses) - at the top or nested
+        value = rng.choice([[1, 2, {"a": (None, 3.5)}], {"k": "v" * 50}, "s", 12, [], {}, (1,), set(), range(3), object,
+                            Point(1, 2), [Point(1, 2), Point(3, 4)], collections.OrderedDict(a=1, b=[2]),
+                            _sys.version_info, _os.terminal_size((80, 24)), Stack([1, 2]), {"s": Stack()},
+                            Colour.RED, collections.ChainMap({"a": 1}), collections.UserList([1]), frozenset({Point(0, 0)}),
+                            collections.defaultdict(list, a=[1]), collections.Counter("aab"), collections.deque([1], maxlen=3)])
         wit.update(value=repr(value))
         make = lambda: Pretty(value, indent_guides=rng.random() < 0.3, max_length=rng.choice([None, 1]),
                               expand_all=rng.random() < 0.2)
